@@ -211,6 +211,11 @@ func sysReplayPart(run *hlib.Run, res *Result, part int32, what string) {
 		}
 		return
 	}
+	spurs := 0
+	if n := len(ops); n > 0 && strings.HasPrefix(ops[n-1], "#spurs ") {
+		spurs, _ = strconv.Atoi(strings.TrimPrefix(ops[n-1], "#spurs "))
+		ops = ops[:n-1]
+	}
 	for _, l := range ops {
 		run.Emit(l, "ok")
 	}
@@ -218,12 +223,26 @@ func sysReplayPart(run *hlib.Run, res *Result, part int32, what string) {
 	// the hypothesis of log_order_handover_chain) on the choices it replayed; the prediction here is computed from
 	// the emitted lines, a disagreement is a correspondence difference
 	scope := sysChainScope(ops)
-	run.Emit("sys scope", scope)
+	switch {
+	case scope != "chain":
+		scope = "outside"
+	case spurs > 0:
+		scope = "spur" // a worker closed by a request that carries nothing of the partition: not in the proved model
+	default:
+		scope = "proved"
+	}
+	run.Emit("sys scope2", scope)
 	run.Count("sys-" + what)
+	if scope == "proved" {
+		run.Count("sys-" + what + "-inside-proved-scope")
+	}
+	if scope == "spur" {
+		run.Count("sys-" + what + "-needs-spur")
+	}
 	if early > 0 {
 		run.Count("sys-" + what + "-with-early-handover")
 	}
-	if scope == "chain" {
+	if scope != "outside" {
 		run.Count("sys-" + what + "-in-handover-chain-scope")
 	} else {
 		run.Count("sys-" + what + "-outside-handover-chain-scope")
